@@ -115,5 +115,13 @@ Definition name_read (a : list Z * list Z * option (list Z)) : list Z :=
   | Err e => [err_code e]
   end.
 
+(* Group.new(name) / PixelLayer.frompil(.., name): the record state they build *)
+Definition ctor_case (d : sdesc) : list Z :=
+  match ctor_rec macroman_enc (sd_str d) with
+  | Err e => dg [err_code e]
+  | Ok r => dg (0 :: Z.of_nat (length (rec_name r)) :: rec_name r
+                  ++ match rec_luni r with Some v => 1 :: v | None => [0] end)
+  end.
+
 Definition guard_case (s : list Z) : list Z :=
   [if joinable_free s then 1 else 0].
